@@ -15,7 +15,8 @@ RULE = ('random core files (variables with differing dimension subsets, masks,'
         ' coordinate variables) x random selector assignments (int incl. '
         'negative, slices incl. empty/reversed/out-of-range, index lists with '
         'repeats/negatives; zipped equal-length lists) over random dimension '
-        'subsets in shuffled keyword order; thorough adds the exhaustive 9^3 '
+        'subsets in shuffled keyword order; one case in four through the '
+        'string form slice_dim, one in six on IOAPI files; thorough adds the exhaustive 9^3 '
         'selector menu on a (2,3,4) file. A case is non-trivial when at least '
         'one variable has a selected dimension and the selection is not the '
         'identity; distinct = distinct (file spec, selectors) digests.')
